@@ -20,6 +20,8 @@ VARIANTS = {
     "rel":   dict(cc="gcc",   flags="-O2 -g -fopenmp -DHAVE_OPENMP -mavx2 -DHAVE_AVX2 -DKALIGN_VERIF", ld="-fopenmp"),
     "san":   dict(cc="clang", flags="-O1 -g -fno-omit-frame-pointer -fsanitize=address,undefined -fno-sanitize-recover=undefined -fopenmp=libomp -DHAVE_OPENMP -mavx2 -DHAVE_AVX2 -DKALIGN_VERIF",
                   ld="-fsanitize=address,undefined -fopenmp=libomp"),
+    "tsan":  dict(cc="clang", flags="-O1 -g -fno-omit-frame-pointer -fsanitize=thread -fopenmp=libomp -DHAVE_OPENMP -mavx2 -DHAVE_AVX2 -DKALIGN_VERIF",
+                  ld="-fsanitize=thread -fopenmp=libomp"),
     "noomp": dict(cc="gcc",   flags="-O2 -g -mavx2 -DHAVE_AVX2 -DKALIGN_VERIF -Wno-unknown-pragmas", ld=""),
     "noavx": dict(cc="gcc",   flags="-O2 -g -fopenmp -DHAVE_OPENMP -DNOHAVE_AVX2 -DKALIGN_VERIF", ld="-fopenmp"),
     "off":   dict(cc="gcc",   flags="-O2 -g -fopenmp -DHAVE_OPENMP -mavx2 -DHAVE_AVX2", ld="-fopenmp"),
